@@ -4,6 +4,7 @@ import (
 	"encoding/json"
 	"fmt"
 	"math"
+	"strings"
 	"time"
 
 	"github.com/ja7ad/otp"
@@ -16,15 +17,15 @@ import (
 // ---- C03 / C04: validation accepts exactly the window ----
 
 type vhotpCase struct {
-	KeyHex    string `json:"key_hex"`
-	Secret    string `json:"secret"`
-	Counter   uint64 `json:"counter"`
-	Skew      uint64 `json:"skew"`
-	NilParam  bool   `json:"nil_param"`
-	Digits    uint8  `json:"digits"`
-	Algo      uint8  `json:"algo"`
-	Submitted string `json:"submitted_hex"` // hex of the submitted bytes
-	Note      string `json:"note"`
+	KeyHex    string   `json:"key_hex"`
+	Secret    string   `json:"secret"`
+	Counter   uint64   `json:"counter"`
+	Skew      uint64   `json:"skew"`
+	NilParam  bool     `json:"nil_param"`
+	Digits    uint8    `json:"digits"`
+	Algo      uint8    `json:"algo"`
+	Submitted []string `json:"submitted_hex"` // hex of each submitted byte string (judged against one window)
+	Notes     []string `json:"notes"`
 }
 
 func callValidateHOTP(secret, code string, counter uint64, p *otp.Param) (ok bool, err error, pan any) {
@@ -76,7 +77,6 @@ func errClass(err error) string {
 func judgeVHOTP(c *Ctx, k vhotpCase) {
 	r := c.R
 	key := unhex(k.KeyHex)
-	sub := string(unhex(k.Submitted))
 	var p *otp.Param
 	digits, algo, skew := int(k.Digits), int(k.Algo), k.Skew
 	if k.NilParam {
@@ -84,74 +84,96 @@ func judgeVHOTP(c *Ctx, k vhotpCase) {
 	} else {
 		p = &otp.Param{Digits: otp.Digits(k.Digits), Algorithm: otp.Algorithm(k.Algo), Skew: uint(k.Skew)}
 	}
-	ok, err, pan := callValidateHOTP(k.Secret, sub, k.Counter, p)
-	r.Eval(1)
-	if pan != nil {
-		if r.Prop != "C13" {
-			r.Violate(r.Prop+"|ValidateHOTP|panic|"+paramClass(digits, algo), "ValidateHOTP panics", "vhotp", k, "a verdict", panicStr(pan))
-		}
-		return
-	}
-	pairRule(c, "ValidateHOTP", ok, err, "vhotp", k)
-	if r.Prop == "C13" {
-		leakCheck(c, "ValidateHOTP", err, k.Secret, key, func() []string {
-			if skew > 10 || !(digits >= 6 && digits <= 10 && ref.HashSupported(algo)) || k.Counter > math.MaxUint64-skew {
-				return nil
-			}
-			var codes []string
-			for code := range ref.HOTPWindow(key, k.Counter, skew, digits, algo) {
-				codes = append(codes, code)
-			}
-			return codes
-		}, "vhotp", k)
-		return
-	}
 	supported := digits >= 1 && digits <= 10 && ref.HashSupported(algo)
-	switch {
-	case skew > 10:
-		r.Nontrivial(fmt.Sprintf("refuse|%d|%s", skew, k.Note))
-		if ok || err == nil {
-			r.Violate("C03|ValidateHOTP|window>10-not-refused|", "ValidateHOTP does not refuse a window larger than 10", "vhotp", k, "(false, error)", fmt.Sprintf("(%v, %v)", ok, err))
+	inDomain := k.Counter <= math.MaxUint64-skew
+	var w map[string]uint64
+	if skew <= 10 && supported && inDomain {
+		w = ref.HOTPWindow(key, k.Counter, skew, digits, algo)
+	}
+	one := func(sh, note string) vhotpCase { x := k; x.Submitted, x.Notes = []string{sh}, []string{note}; return x }
+	for i, sh := range k.Submitted {
+		sub := string(unhex(sh))
+		note := ""
+		if i < len(k.Notes) {
+			note = k.Notes[i]
 		}
-	case !supported:
-		if ok {
-			r.Violate("C03|ValidateHOTP|accepts-with-unsupported|"+paramClass(digits, algo), "ValidateHOTP accepts under unsupported parameters", "vhotp", k, "(false, error)", fmt.Sprintf("(%v, %v)", ok, err))
-		}
-	default:
-		if k.Counter > math.MaxUint64-skew {
-			return // outside the property's domain (window would pass 2^64-1)
-		}
-		w := ref.HOTPWindow(key, k.Counter, skew, digits, algo)
-		at, want := w[sub]
-		if want || len(sub) == digits {
-			r.Nontrivial(fmt.Sprintf("w|%s|%d|%d|%d|%d|%s", k.KeyHex, k.Counter, skew, digits, algo, k.Submitted))
-		}
-		if ok != want {
-			cls := "rejects-in-window"
-			exp := fmt.Sprintf("true (code of counter %d, inside [%d-%d, %d+%d])", at, k.Counter, skew, k.Counter, skew)
-			if !want {
-				cls = "accepts-outside-window"
-				exp = "false (not the code of any counter in the window)"
+		ok, err, pan := callValidateHOTP(k.Secret, sub, k.Counter, p)
+		r.Eval(1)
+		if pan != nil {
+			if r.Prop != "C13" {
+				r.Violate(r.Prop+"|ValidateHOTP|panic|"+paramClass(digits, algo), "ValidateHOTP panics", "vhotp", one(sh, note), "a verdict", panicStr(pan))
 			}
-			side := ""
-			if want && at < k.Counter {
-				side = "look-behind"
-				if k.Counter >= 1<<63 {
-					side = "look-behind,counter>=2^63"
+			continue
+		}
+		pairRule(c, "ValidateHOTP", ok, err, "vhotp", one(sh, note))
+		if r.Prop == "C13" {
+			leakCheck(c, "ValidateHOTP", err, k.Secret, key, func() []string {
+				if w == nil || digits < 6 {
+					return nil
 				}
-			} else if want && at > k.Counter {
-				side = "look-ahead"
-			} else if want {
-				side = "own-counter"
-			} else {
-				side = k.Note
+				var codes []string
+				for code := range w {
+					codes = append(codes, code)
+				}
+				return codes
+			}, "vhotp", one(sh, note))
+			continue
+		}
+		switch {
+		case skew > 10:
+			r.Nontrivial(fmt.Sprintf("refuse|%d|%s", skew, note))
+			if ok || err == nil {
+				r.Violate("C03|ValidateHOTP|window>10-not-refused|", "ValidateHOTP does not refuse a window larger than 10", "vhotp", one(sh, note), "(false, error)", fmt.Sprintf("(%v, %v)", ok, err))
 			}
-			r.Violate("C03|ValidateHOTP|"+cls+"|"+side, "ValidateHOTP "+cls+" ("+side+")", "vhotp", k, exp, fmt.Sprintf("(%v, %v)", ok, err))
+		case !supported:
+			if ok {
+				r.Violate("C03|ValidateHOTP|accepts-with-unsupported|"+paramClass(digits, algo), "ValidateHOTP accepts under unsupported parameters", "vhotp", one(sh, note), "(false, error)", fmt.Sprintf("(%v, %v)", ok, err))
+			}
+		case !inDomain:
+			// outside the property's domain (window would pass 2^64-1)
+		default:
+			at, want := w[sub]
+			if want || len(sub) == digits {
+				r.Nontrivial(fmt.Sprintf("w|%s|%d|%d|%d|%d|%s", k.KeyHex, k.Counter, skew, digits, algo, sh))
+			}
+			if ok != want {
+				cls := "rejects-in-window"
+				exp := fmt.Sprintf("true (code of counter %d, inside [%d-%d, %d+%d])", at, k.Counter, skew, k.Counter, skew)
+				if !want {
+					cls = "accepts-outside-window"
+					exp = "false (not the code of any counter in the window)"
+				}
+				side := ""
+				if want && at < k.Counter {
+					side = "look-behind"
+					if k.Counter >= 1<<63 {
+						side = "look-behind,counter>=2^63"
+					}
+				} else if want && at > k.Counter {
+					side = "look-ahead"
+				} else if want {
+					side = "own-counter"
+				} else {
+					side = noteClass(note)
+				}
+				r.Violate("C03|ValidateHOTP|"+cls+"|"+side, "ValidateHOTP "+cls+" ("+side+")", "vhotp", one(sh, note), exp, fmt.Sprintf("(%v, %v) for submitted %q", ok, err, sub))
+			}
+		}
+		if r.WantSample() {
+			r.Sample(map[string]any{"case": one(sh, note), "submitted": sub, "ok": ok, "err": fmt.Sprint(err)})
 		}
 	}
-	if r.WantSample() {
-		r.Sample(map[string]any{"case": k, "submitted": sub, "ok": ok, "err": fmt.Sprint(err)})
+}
+
+// noteClass reduces a per-submission note to its class (for signatures).
+func noteClass(n string) string {
+	if strings.HasPrefix(n, "genuine code at distance") {
+		return "genuine code outside the window"
 	}
+	if strings.HasPrefix(n, "refused") {
+		return "refused"
+	}
+	return n
 }
 
 type vtotpCase struct {
@@ -163,8 +185,8 @@ type vtotpCase struct {
 	NilParam  bool            `json:"nil_param"`
 	Digits    uint8           `json:"digits"`
 	Algo      uint8           `json:"algo"`
-	Submitted string          `json:"submitted_hex"`
-	Note      string          `json:"note"`
+	Submitted []string        `json:"submitted_hex"`
+	Notes     []string        `json:"notes"`
 }
 
 // maxDerivationsPerValidation: 2*10+1 codes can be derived by a bounded validator.
@@ -173,7 +195,6 @@ const maxDerivationsPerValidation = 21
 func judgeVTOTP(c *Ctx, k vtotpCase) {
 	r := c.R
 	key := unhex(k.KeyHex)
-	sub := string(unhex(k.Submitted))
 	var p *otp.Param
 	digits, algo, skew, period := int(k.Digits), int(k.Algo), k.Skew, k.Period
 	if k.NilParam {
@@ -181,71 +202,83 @@ func judgeVTOTP(c *Ctx, k vtotpCase) {
 	} else {
 		p = &otp.Param{Digits: otp.Digits(k.Digits), Algorithm: otp.Algorithm(k.Algo), Skew: uint(k.Skew), Period: uint(k.Period)}
 	}
-	ok, err, pan := callValidateTOTP(k.Secret, sub, k.At.Time(), p)
-	r.Eval(1)
-	if pan == hooks.Cutoff {
-		r.Violate("C04|ValidateTOTP|unbounded-work|", "ValidateTOTP performs work unbounded in the skew parameter (cut off by the monitor after 64 derivations)", "vtotp", k, "at most 21 derivations, then (false, error)", "more than 64 HMAC derivations in one call")
-		return
-	}
-	if pan != nil {
-		if r.Prop != "C13" {
-			r.Violate(r.Prop+"|ValidateTOTP|panic|"+paramClass(digits, algo), "ValidateTOTP panics", "vtotp", k, "a verdict", panicStr(pan))
-		}
-		return
-	}
-	pairRule(c, "ValidateTOTP", ok, err, "vtotp", k)
-	step := ref.Step(k.At.Unix, period)
-	if r.Prop == "C13" {
-		leakCheck(c, "ValidateTOTP", err, k.Secret, key, func() []string {
-			if skew > 10 || step < skew || !(digits >= 6 && digits <= 10 && ref.HashSupported(algo)) {
-				return nil
-			}
-			var codes []string
-			for code := range ref.HOTPWindow(key, step, skew, digits, algo) {
-				codes = append(codes, code)
-			}
-			return codes
-		}, "vtotp", k)
-		return
-	}
 	supported := digits >= 1 && digits <= 10 && ref.HashSupported(algo)
-	switch {
-	case skew > 10:
-		r.Nontrivial(fmt.Sprintf("refuse|%d|%s", skew, k.Note))
-		if ok || err == nil {
-			r.Violate("C04|ValidateTOTP|skew>10-not-refused|", "ValidateTOTP does not refuse a skew above the documented maximum of 10", "vtotp", k, "(false, error)", fmt.Sprintf("(%v, %v)", ok, err))
-		}
-	case !supported:
-		if ok {
-			r.Violate("C04|ValidateTOTP|accepts-with-unsupported|"+paramClass(digits, algo), "ValidateTOTP accepts under unsupported parameters", "vtotp", k, "(false, error)", fmt.Sprintf("(%v, %v)", ok, err))
-		}
-	default:
-		if step < skew || k.At.Unix < 0 || k.At.Unix >= 1<<62 {
-			return // outside the property's domain
-		}
-		w := ref.HOTPWindow(key, step, skew, digits, algo)
-		at, want := w[sub]
-		if want || len(sub) == digits {
-			r.Nontrivial(fmt.Sprintf("w|%s|%d|%d|%d|%d|%d|%s", k.KeyHex, k.At.Unix, period, skew, digits, algo, k.Submitted))
-		}
-		if ok != want {
-			cls := "rejects-in-window"
-			exp := fmt.Sprintf("true (code of step %d; validation at step %d, skew %d)", at, step, skew)
-			side := "own-step"
-			if !want {
-				cls = "accepts-outside-window"
-				exp = "false (not the code of any step in the window)"
-				side = k.Note
-			} else if at < step {
-				side = "earlier-step"
-			} else if at > step {
-				side = "later-step"
-			}
-			r.Violate("C04|ValidateTOTP|"+cls+"|"+side, "ValidateTOTP "+cls+" ("+side+")", "vtotp", k, exp, fmt.Sprintf("(%v, %v)", ok, err))
-		}
+	step := ref.Step(k.At.Unix, period)
+	inDomain := step >= skew && k.At.Unix >= 0 && k.At.Unix < 1<<62
+	var w map[string]uint64
+	if skew <= 10 && supported && inDomain {
+		w = ref.HOTPWindow(key, step, skew, digits, algo)
 	}
-	if r.WantSample() {
-		r.Sample(map[string]any{"case": k, "submitted": sub, "ok": ok, "err": fmt.Sprint(err)})
+	t := k.At.Time()
+	one := func(sh, note string) vtotpCase { x := k; x.Submitted, x.Notes = []string{sh}, []string{note}; return x }
+	for i, sh := range k.Submitted {
+		sub := string(unhex(sh))
+		note := ""
+		if i < len(k.Notes) {
+			note = k.Notes[i]
+		}
+		ok, err, pan := callValidateTOTP(k.Secret, sub, t, p)
+		r.Eval(1)
+		if pan == hooks.Cutoff {
+			r.Violate("C04|ValidateTOTP|unbounded-work|", "ValidateTOTP performs work unbounded in the skew parameter (cut off by the monitor after 64 derivations)", "vtotp", one(sh, note), "at most 21 derivations, then (false, error)", "more than 64 HMAC derivations in one call")
+			continue
+		}
+		if pan != nil {
+			if r.Prop != "C13" {
+				r.Violate(r.Prop+"|ValidateTOTP|panic|"+paramClass(digits, algo), "ValidateTOTP panics", "vtotp", one(sh, note), "a verdict", panicStr(pan))
+			}
+			continue
+		}
+		pairRule(c, "ValidateTOTP", ok, err, "vtotp", one(sh, note))
+		if r.Prop == "C13" {
+			leakCheck(c, "ValidateTOTP", err, k.Secret, key, func() []string {
+				if w == nil || digits < 6 {
+					return nil
+				}
+				var codes []string
+				for code := range w {
+					codes = append(codes, code)
+				}
+				return codes
+			}, "vtotp", one(sh, note))
+			continue
+		}
+		switch {
+		case skew > 10:
+			r.Nontrivial(fmt.Sprintf("refuse|%d|%s", skew, note))
+			if ok || err == nil {
+				r.Violate("C04|ValidateTOTP|skew>10-not-refused|", "ValidateTOTP does not refuse a skew above the documented maximum of 10", "vtotp", one(sh, note), "(false, error)", fmt.Sprintf("(%v, %v)", ok, err))
+			}
+		case !supported:
+			if ok {
+				r.Violate("C04|ValidateTOTP|accepts-with-unsupported|"+paramClass(digits, algo), "ValidateTOTP accepts under unsupported parameters", "vtotp", one(sh, note), "(false, error)", fmt.Sprintf("(%v, %v)", ok, err))
+			}
+		case !inDomain:
+			// outside the property's domain
+		default:
+			at, want := w[sub]
+			if want || len(sub) == digits {
+				r.Nontrivial(fmt.Sprintf("w|%s|%d|%d|%d|%d|%d|%s", k.KeyHex, k.At.Unix, period, skew, digits, algo, sh))
+			}
+			if ok != want {
+				cls := "rejects-in-window"
+				exp := fmt.Sprintf("true (code of step %d; validation at step %d, skew %d)", at, step, skew)
+				side := "own-step"
+				if !want {
+					cls = "accepts-outside-window"
+					exp = "false (not the code of any step in the window)"
+					side = noteClass(note)
+				} else if at < step {
+					side = "earlier-step"
+				} else if at > step {
+					side = "later-step"
+				}
+				r.Violate("C04|ValidateTOTP|"+cls+"|"+side, "ValidateTOTP "+cls+" ("+side+")", "vtotp", one(sh, note), exp, fmt.Sprintf("(%v, %v) for submitted %q", ok, err, sub))
+			}
+		}
+		if r.WantSample() {
+			r.Sample(map[string]any{"case": one(sh, note), "submitted": sub, "ok": ok, "err": fmt.Sprint(err)})
+		}
 	}
 }
 
@@ -289,6 +322,14 @@ func submittedFor(rng *gen.RNG, key []byte, centre uint64, skew uint64, digits, 
 	return
 }
 
+func hexAll(ss []string) []string {
+	out := make([]string, len(ss))
+	for i, s := range ss {
+		out[i] = hexs([]byte(s))
+	}
+	return out
+}
+
 func c03Cases(c *Ctx, emit func(vhotpCase)) {
 	rng := c.RNG.Fork(3)
 	digitSet := []int{1, 4, 6, 8, 9, 10}
@@ -306,27 +347,23 @@ func c03Cases(c *Ctx, emit func(vhotpCase)) {
 				d := digitSet[rng.Intn(len(digitSet))]
 				a := rng.Intn(3)
 				subs, notes := submittedFor(rng, key, ctr, skew, d, a, rng.Intn(2) == 0)
-				for i, sub := range subs {
-					emit(vhotpCase{KeyHex: hexs(key), Secret: gen.Spell(rng, enc, rng.Intn(gen.NSpellings)), Counter: ctr, Skew: skew, Digits: uint8(d), Algo: uint8(a), Submitted: hexs([]byte(sub)), Note: notes[i]})
-				}
+				emit(vhotpCase{KeyHex: hexs(key), Secret: gen.Spell(rng, enc, rng.Intn(gen.NSpellings)), Counter: ctr, Skew: skew, Digits: uint8(d), Algo: uint8(a), Submitted: hexAll(subs), Notes: notes})
 			}
 			// nil parameters: 6 digits, SHA-1, window 2
 			subs, notes := submittedFor(rng, key, ctr, 2, 6, ref.SHA1, true)
-			for i, sub := range subs {
-				emit(vhotpCase{KeyHex: hexs(key), Secret: enc, Counter: ctr, NilParam: true, Submitted: hexs([]byte(sub)), Note: notes[i]})
-			}
+			emit(vhotpCase{KeyHex: hexs(key), Secret: enc, Counter: ctr, NilParam: true, Submitted: hexAll(subs), Notes: notes})
 		}
 		// refused windows
 		for _, skew := range []uint64{11, 12, 100, 10000, 1 << 32, 1<<63 - 1, 1 << 63, 1<<64 - 1} {
 			for _, ctr := range []uint64{0, 5, 100, 1 << 40} {
 				for _, dist := range []uint64{0, 1, 11} {
-					emit(vhotpCase{KeyHex: hexs(key), Secret: enc, Counter: ctr, Skew: skew, Digits: 6, Algo: 0, Submitted: hexs([]byte(ref.HOTP(key, ctr+dist, 6, 0))), Note: fmt.Sprintf("refused window %d, genuine code at distance +%d", skew, dist)})
+					emit(vhotpCase{KeyHex: hexs(key), Secret: enc, Counter: ctr, Skew: skew, Digits: 6, Algo: 0, Submitted: []string{hexs([]byte(ref.HOTP(key, ctr+dist, 6, 0)))}, Notes: []string{fmt.Sprintf("refused window %d, genuine code at distance +%d", skew, dist)}})
 				}
 			}
 		}
 	}
 	// random
-	for i := 0; i < c.N(100000, 3000000); i++ {
+	for i := 0; i < c.N(20000, 600000); i++ {
 		key := rng.Bytes(rng.Intn(70))
 		ctr := gen.Counter(rng)
 		skew := uint64(rng.Intn(11))
@@ -345,8 +382,14 @@ func c03Cases(c *Ctx, emit func(vhotpCase)) {
 			aa = 0
 		}
 		subs, notes := submittedFor(rng, key, ctr, skew, dd, aa, rng.Intn(6) == 0)
-		j := rng.Intn(len(subs))
-		emit(vhotpCase{KeyHex: hexs(key), Secret: gen.Spell(rng, ref.Base32Encode(key), rng.Intn(gen.NSpellings)), Counter: ctr, Skew: skew, Digits: uint8(d), Algo: uint8(a), Submitted: hexs([]byte(subs[j])), Note: notes[j]})
+		// a random half of the submissions of this window
+		var ss, nn []string
+		for j := range subs {
+			if rng.Bool() {
+				ss, nn = append(ss, subs[j]), append(nn, notes[j])
+			}
+		}
+		emit(vhotpCase{KeyHex: hexs(key), Secret: gen.Spell(rng, ref.Base32Encode(key), rng.Intn(gen.NSpellings)), Counter: ctr, Skew: skew, Digits: uint8(d), Algo: uint8(a), Submitted: hexAll(ss), Notes: nn})
 	}
 }
 
@@ -387,16 +430,12 @@ func c04Cases(c *Ctx, emit func(vtotpCase)) {
 			d := digitSet[rng.Intn(len(digitSet))]
 			a := rng.Intn(3)
 			subs, notes := submittedFor(rng, key, step, skew, d, a, rng.Intn(2) == 0)
-			for i, sub := range subs {
-				emit(vtotpCase{KeyHex: hexs(key), Secret: gen.Spell(rng, enc, rng.Intn(gen.NSpellings)), At: rng.InstantSpec(unix), Period: period, Skew: skew, Digits: uint8(d), Algo: uint8(a), Submitted: hexs([]byte(sub)), Note: notes[i]})
-			}
+			emit(vtotpCase{KeyHex: hexs(key), Secret: gen.Spell(rng, enc, rng.Intn(gen.NSpellings)), At: rng.InstantSpec(unix), Period: period, Skew: skew, Digits: uint8(d), Algo: uint8(a), Submitted: hexAll(subs), Notes: notes})
 		}
 		// nil parameters: 6 digits, SHA-1, 30 s, skew 0
 		unix := gen.UnixSeconds(rng, 30)
 		subs, notes := submittedFor(rng, key, uint64(unix)/30, 0, 6, ref.SHA1, true)
-		for i, sub := range subs {
-			emit(vtotpCase{KeyHex: hexs(key), Secret: enc, At: rng.InstantSpec(unix), NilParam: true, Submitted: hexs([]byte(sub)), Note: notes[i]})
-		}
+		emit(vtotpCase{KeyHex: hexs(key), Secret: enc, At: rng.InstantSpec(unix), NilParam: true, Submitted: hexAll(subs), Notes: notes})
 	}
 	// unsupported parameter classes
 	for i := 0; i < c.N(3000, 30000); i++ {
@@ -414,7 +453,7 @@ func c04Cases(c *Ctx, emit func(vtotpCase)) {
 		if len(sub) != d && rng.Bool() {
 			sub = fmt.Sprintf("%0*d", d, 0)
 		}
-		emit(vtotpCase{KeyHex: hexs(key), Secret: ref.Base32Encode(key), At: rng.InstantSpec(unix), Period: 30, Skew: 1, Digits: uint8(d), Algo: uint8(a), Submitted: hexs([]byte(sub)), Note: "unsupported parameters"})
+		emit(vtotpCase{KeyHex: hexs(key), Secret: ref.Base32Encode(key), At: rng.InstantSpec(unix), Period: 30, Skew: 1, Digits: uint8(d), Algo: uint8(a), Submitted: []string{hexs([]byte(sub))}, Notes: []string{"unsupported parameters"}})
 	}
 }
 
@@ -437,7 +476,7 @@ func refusedSkewCases(c *Ctx, skews []uint64) []vtotpCase {
 					continue
 				}
 				out = append(out, vtotpCase{KeyHex: hexs(key), Secret: enc, At: gen.InstantSpec{Unix: unix}, Period: period, Skew: skew, Digits: 6, Algo: 0,
-					Submitted: hexs([]byte(ref.HOTP(key, step+dist, 6, 0))), Note: fmt.Sprintf("refused skew %d, genuine code at distance +%d", skew, dist)})
+					Submitted: []string{hexs([]byte(ref.HOTP(key, step+dist, 6, 0)))}, Notes: []string{fmt.Sprintf("refused skew %d, genuine code at distance +%d", skew, dist)}})
 			}
 		}
 	}
@@ -461,7 +500,7 @@ func runC04(c *Ctx) {
 		reached := false
 		for _, k := range all {
 			hooks.ResetCalls()
-			judgeVTOTP(c, k)
+			judgeVTOTP(c, k) // one submission per refused-skew case
 			n := hooks.Calls()
 			c.R.Count("refused_skew_probes", 1)
 			if n > 0 {
@@ -473,6 +512,10 @@ func runC04(c *Ctx) {
 		}
 		// in-domain calls: at most 2*skew+1 derivations
 		for _, k := range cases {
+			if len(k.Submitted) == 0 {
+				continue
+			}
+			k.Submitted, k.Notes = k.Submitted[:1], k.Notes[:min(1, len(k.Notes))]
 			hooks.ResetCalls()
 			judgeVTOTP(c, k)
 			n := hooks.Calls()
